@@ -9,6 +9,20 @@ def target(t):
     return 7
 
 
+class Unpicklable(Exception):
+    def __init__(self):
+        super().__init__()
+        self.f = lambda: 0
+
+
+def abrupt(how):
+    if how == 'os_exit':
+        os._exit(3)
+    if how == 'unpicklable_result':
+        return lambda: 0
+    raise Unpicklable()
+
+
 if __name__ == '__main__':
     for sig in (signal.SIGKILL, signal.SIGSEGV):
         p = Process(target=target, args=(30,))
@@ -31,6 +45,21 @@ if __name__ == '__main__':
         except OSError:
             pass
         assert p.done() and p.exitcode == -sig
+    # the child ends abruptly by itself (no signal): exit status without a report / unpicklable outcome
+    for how in ('os_exit', 'unpicklable_result', 'unpicklable_exception'):
+        p = Process(target=abrupt, args=(how,))
+        p.start()
+        done, not_done = wait([p], timeout=20)
+        assert done == {p}, ('wait() did not complete', how)
+        e = p.exception(timeout=10)
+        assert isinstance(e, BaseException), (how, e)
+        assert p.done()
+    # the caller keeps (and reuses) its kwargs dict: the parent must still see the child's death
+    kw = {'t': 30}
+    p = Process(target=target, kwargs=kw)
+    p.start(); time.sleep(1); os.kill(p.pid, signal.SIGKILL)
+    done, _ = wait([p], timeout=10)
+    assert done == {p} and isinstance(p.exception(timeout=5), OSError) and set(kw) == {'t'}, 'caller-held kwargs'
     # deliberate terminate: completes, no error
     p = Process(target=target, args=(30,))
     p.start(); time.sleep(1); p.terminate()
